@@ -581,6 +581,8 @@ class PenlogReader:
             return 0
         if not self._parsed:
             self._parse_file_structure()
+        if not 0 <= index < len(self._record_offsets):
+            raise IndexError(f"record index out of range: {index}")
         return self._record_offsets[index]
 
     @property
@@ -626,6 +628,10 @@ class PenlogReader:
         offset: int = 0,
         reverse: bool = False,
     ) -> Iterator[PenlogRecord]:
+        if offset < 0:
+            # Negative offsets count from the end of the log;
+            # a log with fewer records is read from its beginning.
+            offset = max(len(self) + offset, 0)
         self.seek_to_record(offset)
         if reverse is False:
             while True:
